@@ -152,6 +152,7 @@ MCView == <<ginfo, ev, cl, proc, msgs, snapq, hyd, withdrawn, wl, welc, pwelc, h
 DepthBound == TLCGet("level") <= MaxDepth
 MC_C01 == Quiescent => C01_ExcusedQuiet
 MC_C01_Plain == Quiescent => C01_Plain
+MC_C02 == Quiescent => C02_ExcusedQuiet
 MC_C03 == C03_OnlyMembers
 MC_C16 == C16_ConsentGated
 MC_C05 == C05_ChainAuthorised
